@@ -6,7 +6,7 @@ SEARCH = ('slice', lambda h: 'boxed' if 'boxed' in h else None)
 
 
 def run(ctx):
-    ctx.level = 'proof'
+    ctx.level = 'model_checking'
     ctx.add_trusted('Kani 0.68 / CBMC 6.11 memory model (pointer identity, bounds, --memory-leak-check) (T1)')
     ctx.add_trusted('T6: the 32 macro instantiations impl_from_slice_conversions!(1..=32) share one text; each N is proved separately')
     ctx.bounded.append('BOUNDED in the slice length: the view harnesses take a symbolic sub-slice of a backing array of 3N+2 samples '
